@@ -433,4 +433,38 @@ theorem copy_in_place {s s' : State} {a b full : Nat} {ca : Cont} (h : step s (.
                 exact not_shares_ne hsa hsc hn hm hq id o o' e
   · cases h
 
+theorem lay_setLay_self (s : State) (a : Nat) (x : Option Layout) (h : a < s.lays.length) :
+    (s.setLay a x).lay a = x := by
+  unfold State.setLay State.lay
+  simp only
+  rw [List.getElem?_set_self h]; rfl
+
+/-- moving a layout (construction into a free slot or assignment onto a live layout) transfers the pointers without
+    touching any counter of the moved arrays: the target holds exactly the source's arrays, the source holds nothing,
+    the only pool change is the release of what the target held before (nothing for a move construction) -/
+theorem step_lmove_table {s s' : State} {d src : Nat} {Ls : Layout} (h : step s (.lmove d src) = .ok s')
+    (hLs : s.lay src = some Ls) (hne : d ≠ src) :
+    s'.lay d = some Ls ∧ s'.lay src = some Ls.movedFrom ∧
+    releaseAll s.pool (layoutInds (s.lay d)) = .ok s'.pool ∧ (s.lay d = none → s'.pool = s.pool) := by
+  unfold step at h
+  simp only [hLs] at h
+  split at h
+  · cases h
+  · rename_i hc
+    simp only [decide_eq_true_eq, Nat.not_le] at hc
+    split at h
+    · cases h
+    · split at h
+      · cases h
+      · rename_i p1 hr
+        injection h with h; subst h
+        refine ⟨?_, ?_, hr, ?_⟩
+        · rw [lay_setLay_ne _ src d _ (Ne.symm hne)]
+          exact lay_setLay_self _ d _ hc
+        · exact lay_setLay_self _ src _ (by rw [length_setLay]; exact lay_lt hLs)
+        · intro hnone
+          rw [hnone] at hr
+          simp only [layoutInds, releaseAll] at hr
+          injection hr with hr; exact hr.symm
+
 end FeatModel.Pool
